@@ -527,6 +527,11 @@ def gen_rich(rng, which):
     if r == 14:
         d = datetime.datetime(rng.randint(1, 9999), rng.randint(1, 12), rng.randint(1, 28), rng.randint(0, 23), rng.randint(0, 59), rng.randint(0, 59),
                               rng.choice([0, 123456]), tzinfo=datetime.timezone(datetime.timedelta(minutes=rng.choice([-720, -90, 0, 330, 840]))))
+        if not NO_ORJSON and rng.random() < 0.08:
+            # a UTC offset that is not a whole number of minutes (local mean time: what zoneinfo gives for dates before standard time was
+            # introduced, e.g. Europe/Amsterdam in 1900: +00:19:32). Recorded finding: orjson writes the offset rounded to minutes.
+            d = d.replace(tzinfo=datetime.timezone(datetime.timedelta(minutes=rng.choice([19, -50, 53]), seconds=rng.choice([32, 28, 8]))))
+            FLAGGED[0] = "tz-offset-with-seconds"
         return d, d.isoformat()
     if which == "c" and r in (0, 1, 5, 6):
         if r in (0, 1):
